@@ -17,13 +17,15 @@ import shutil
 
 # name, N, DIRECTED, WEIGHTED, SAMPLE, quick?
 NET = [
+    # (longest first: the stages run four at a time)
+    ("dir-u4", 4, "TRUE", "FALSE", 0, True),
+    ("dir-w4s", 4, "TRUE", "TRUE", 1500, True),       # quick: sampled weighted shapes (depends on the seed)
+    ("dir-w4", 4, "TRUE", "TRUE", 0, False),          # thorough: every shape
+    ("und-u5", 5, "FALSE", "FALSE", 0, True),
     ("dir-u3", 3, "TRUE", "FALSE", 0, True),
     ("und-u4", 4, "FALSE", "FALSE", 0, True),
     ("dir-w3", 3, "TRUE", "TRUE", 0, True),
     ("und-w4", 4, "FALSE", "TRUE", 0, True),
-    ("dir-u4", 4, "TRUE", "FALSE", 0, True),
-    ("dir-w4", 4, "TRUE", "TRUE", 0, True),
-    ("und-u5", 5, "FALSE", "FALSE", 0, True),
     ("und-w5", 5, "FALSE", "TRUE", 0, False),
     ("dir-u5s", 5, "TRUE", "FALSE", 4000, False),
     ("dir-w5s", 5, "TRUE", "TRUE", 4000, False),
@@ -40,6 +42,18 @@ QCFG = [
     ("dir-u4", 4, "TRUE", "FALSE", 0, False),
     ("dir-w4", 4, "TRUE", "TRUE", 0, False),
     ("und-u5", 5, "FALSE", "FALSE", 0, False),
+    ("und-w5", 5, "FALSE", "TRUE", 0, False),
+]
+
+# QMultiplex on 2-layer graphs, every partition x layer weights x resolutions
+QMCFG = [
+    ("und-u3", 3, "FALSE", "FALSE", 0, True),
+    ("und-w4", 4, "FALSE", "TRUE", 0, True),
+    ("dir-w3", 3, "TRUE", "TRUE", 0, True),
+    ("dir-u4s", 4, "TRUE", "FALSE", 250, True),
+    ("und-w5s", 5, "FALSE", "TRUE", 60, True),
+    ("dir-w4", 4, "TRUE", "TRUE", 0, False),
+    ("dir-u4", 4, "TRUE", "FALSE", 0, False),
     ("und-w5", 5, "FALSE", "TRUE", 0, False),
 ]
 
@@ -64,8 +78,14 @@ def run(ctx):
                         subst=dict(N=n, DIRECTED=d, WEIGHTED=w, SALT=salt, SAMPLE=sample, EMIT="TRUE"))
         ctx.replay(hb, "community-q", cases, name="R2 replay Q " + name)
 
+    def qm_stage(name, n, d, w, sample):
+        cases = ctx.gen("network/Multiplex.tla", "network/Multiplex.cfg", name="R1+R2 gen QMultiplex " + name,
+                        subst=dict(N=n, DIRECTED=d, WEIGHTED=w, SALT=ctx.seed, SAMPLE=sample, EMIT="TRUE"))
+        ctx.replay(hb, "community-qm", cases, name="R2 replay QMultiplex " + name)
+
     ctx.parallel([(lambda a=a: net_stage(*a[:5])) for a in NET if a[5] or thorough] +
-                 [(lambda a=a: q_stage(*a[:5])) for a in QCFG if a[5] or thorough], width=4)
+                 [(lambda a=a: q_stage(*a[:5])) for a in QCFG if a[5] or thorough] +
+                 [(lambda a=a: qm_stage(*a[:5])) for a in QMCFG if a[5] or thorough], width=4)
 
     # ---- Louvain: record real Modularize runs, validate every level with TLC, compare Q --------
     runs = 200 if thorough else 16
@@ -102,6 +122,10 @@ def run(ctx):
         "formula-valued measures are compared with the exact rational within 1e-12 relative (c*n*eps)",
         "Louvain traces: the recorder's projection of each level (Communities, Structure, Weight matrix) is trusted; "
         "Q of a level is compared with TLC's exact rational within 1e-10 (sum of up to n^2 float terms, n <= 60)",
+        "HITS: where the spec states the limit direction d exactly, scores must be parallel to d within "
+        "2*tol*lam2/(lam-lam2) (emitted by the spec from the termination test) + 1e-12; unit norm within 1e-12",
+        "DiffuseToEquilibrium: allowed deviation tol*(dmax/dmin)*(diam*vol)/(1-damp) emitted by the spec (Chung's gap "
+        "bound); Diffuse conservation within 1e-9 relative, t=0 compared exactly",
         "PageRank: allowed deviation from the exact stationary vector = d/(1-d)*n*tol (emitted by the spec from the "
         "contraction argument) + 1e-7 for the rounding of the iteration itself (random start vector scaled by 1/sum)",
     ]
